@@ -110,6 +110,55 @@ def facts(roots, exclude_files=()):
     return {"reachable": len(r), "danger": sorted(set(danger)), "outs": sorted(set(outs))}
 
 
+HOSTNAMES = {"PYTHON_VERSION_TRIPLE", "PYTHON_VERSION_STR", "PYTHON3", "IS_PYPY", "IS_GRAAL", "IS_RUST", "PYTHON_MAGIC_INT",
+             "PYTHON_IMPLEMENTATION", "PYTHON_VERSION"}
+SYSATTRS = {"version_info", "version", "byteorder", "maxsize", "hexversion", "implementation", "platform", "maxunicode", "flags"}
+
+
+def host_sites():
+    """every (file, scope) under /repo/xdis whose body reads the identity of the host interpreter:
+    the names exported by xdis.version_info / xdis.magics, sys.version_info & co., platform.*"""
+    out = {}
+    root = os.path.join(core.REPO, "xdis")
+    for d, _, fs in os.walk(root):
+        for f in sorted(fs):
+            if not f.endswith(".py"):
+                continue
+            path = os.path.join(d, f)
+            rel = os.path.relpath(path, core.REPO)
+            try:
+                tree = ast.parse(open(path).read())
+            except SyntaxError:
+                continue
+
+            def visit(node, scope):
+                for ch in ast.iter_child_nodes(node):
+                    if isinstance(ch, (ast.FunctionDef, ast.AsyncFunctionDef, ast.ClassDef)):
+                        visit(ch, (scope + "." if scope else "") + ch.name)
+                        continue
+                    if isinstance(ch, (ast.Import, ast.ImportFrom)):
+                        continue
+                    if isinstance(ch, ast.Name) and ch.id in HOSTNAMES and isinstance(ch.ctx, ast.Load):
+                        out.setdefault((rel, scope or "<module>"), set()).add(ch.id)
+                    if isinstance(ch, ast.Attribute) and isinstance(ch.value, ast.Name) and ch.value.id in ("sys", "platform") \
+                            and (ch.attr in SYSATTRS or ch.value.id == "platform"):
+                        out.setdefault((rel, scope or "<module>"), set()).add(ch.value.id + "." + ch.attr)
+                    visit(ch, scope)
+            visit(tree, "")
+    return [[k[0], k[1], sorted(v)] for k, v in sorted(out.items())]
+
+
+def host_allow():
+    """the reviewed list /verif/ref/host_sites.txt: `file scope class  # why it cannot change a result`"""
+    out = []
+    for ln in open(os.path.join(core.VERIF, "ref", "host_sites.txt")):
+        ln = ln.split("#")[0].strip()
+        if ln:
+            f, scope, cls = ln.split()[:3]
+            out.append([f, scope, cls])
+    return out
+
+
 if __name__ == "__main__":
     import json
     print(json.dumps(facts({"load_module"}), indent=1))
